@@ -57,11 +57,17 @@ def plan(tier):
              if not (isinstance(s, tuple) and s[0] == "s")]
     DOCS += [("l", ("p", "q", "r", "s")), ("l", (1, 1, 1, 1)),
              ("m", (("a", ("l", ("p", "q", "r", "s"))), ("b", 1)))]
-    voc = paths.vocab("c01-quick") + [("idx", -2), ("idx", 2)]
+    voc = paths.vocab("c01-quick") + [("idx", -2), ("idx", 2)] + [
+        ("slice", a, b) for a, b in ((0, 1), (0, 2), (1, 2), (1, 3), (0, 3),
+                                     (1, 1), (-2, -1), (-3, -1))]
     PLIST = [((s,), paths.render((s,), "/")) for s in voc]
     for p in paths.upto(paths.vocab("c01-quick"), 2):
         if len(p) == 2:
             PLIST.append((p, paths.render(p, "/")))
+    for nav in (("key", "a"), ("idx", 0), ("all",)):
+        for sl in voc:
+            if sl[0] == "slice":
+                PLIST.append(((nav, sl), paths.render((nav, sl), "/")))
     bounds = {"documents": len(DOCS), "paths": len(PLIST),
               "collector_sums": [c[0] for c in COLLECT]}
     shards = [(lo, min(len(DOCS), lo + 25))
@@ -101,6 +107,24 @@ def model(doc0, segs):
             return ("nomatch",)
         if any(not corpus.is_scalar(c.node) for c in ctxs):
             return ("unspecified", "collector over containers")
+        return ("doc", refedit.expect_delete(doc0, ctxs), len(ctxs))
+    if segs and segs[-1][0] == "slice":
+        # a slice is a virtual list: deleting it deletes its elements
+        from vkit import refedit
+        try:
+            outer = refquery.ev(segs, refquery.root_ctx(doc0))
+        except refquery.Unspecified as ex:
+            return ("unspecified", str(ex))
+        except refquery.ExpectError:
+            return ("error",)
+        ctxs = []
+        for c in outer:
+            if isinstance(c.node, refquery.VList):
+                ctxs += list(c.node)
+            else:
+                ctxs.append(c)
+        if not ctxs:
+            return ("nomatch",)
         return ("doc", refedit.expect_delete(doc0, ctxs), len(ctxs))
     return editrun.model_delete(doc0, segs)
 
